@@ -339,4 +339,9 @@ def sum_extensionality(ctx):
                 continue
             same = z3.ForAll([q], z3.Implies(z3.And(q >= 0, q < tz(a.n)), tz(ba) == tz(bb)))
             facts.append(z3.Implies(z3.And(tz(a.n) == tz(b.n), same), a.const == b.const))
+            # homogeneity: bodies proportional by a fixed constant => sums proportional
+            for cst in (2, -1):
+                for (x_, bx, y_, by) in ((a, ba, b, bb), (b, bb, a, ba)):
+                    prop = z3.ForAll([q], z3.Implies(z3.And(q >= 0, q < tz(x_.n)), tz(bx) == cst * tz(by)))
+                    facts.append(z3.Implies(z3.And(tz(a.n) == tz(b.n), prop), x_.const == cst * y_.const))
     return facts
